@@ -108,15 +108,31 @@ func padLeft(e []byte, L int) []byte {
 // statement `which` in context cs; the sigma verdicts come from the implementation's
 // Protocol.Verify on the decoded values.
 func (h *harness) modelVerdict(c *niCase, comp compiler.Name, cs ctxSpec, which int, d *decoded) string {
+	// The model's verdict is monotone in the sigma verdicts (a conjunction), so it is first
+	// asked with all of them true; only if it then accepts are the real sigma verdicts
+	// computed (Protocol.Verify of the implementation on the decoded values) and passed.
+	first := h.modelVerdictWith(c, comp, cs, which, d, false)
+	if first != "1" {
+		return first
+	}
+	return h.modelVerdictWith(c, comp, cs, which, d, true)
+}
+
+func (h *harness) modelVerdictWith(c *niCase, comp compiler.Name, cs ctxSpec, which int, d *decoded, real bool) string {
 	name, ops := cs.history()
 	ctxf := fmt.Sprintf("%s %s %s %s", vh.Hex(name), strings.Join(ops, ";"), vh.Hex(cs.sid()), vh.Hex([]byte(c.pname)))
+	sv := func(i int, e []byte) bool {
+		if !real {
+			return true
+		}
+		return e != nil && c.sigmaOK(which, d, i, e)
+	}
 	switch comp {
 	case fiatshamir.Name:
 		if len(d.a) != 1 {
 			return "0"
 		}
-		sv := c.sigmaOK(which, d, 0, d.e[0])
-		return h.ask(fmt.Sprintf("FSV %s %s %s %d %s %s", ctxf, vh.Hex(c.stmt[which]), vh.Hex(d.a[0]), c.L, vh.Hex(d.e[0]), b2i(sv)))
+		return h.ask(fmt.Sprintf("FSV %s %s %s %d %s %s", ctxf, vh.Hex(c.stmt[which]), vh.Hex(d.a[0]), c.L, vh.Hex(d.e[0]), b2i(sv(0, d.e[0]))))
 	case fischlin.Name:
 		p := h.ask(fmt.Sprintf("FIP %d %d", c.rho, c.ss))
 		if p == "NONE" || p == "DEAD" {
@@ -127,8 +143,7 @@ func (h *harness) modelVerdict(c *niCase, comp compiler.Name, cs ctxSpec, which 
 		svs := ""
 		for i := range d.a {
 			reps = append(reps, vh.Hex(d.a[i])+","+vh.Hex(d.e[i])+","+vh.Hex(d.z[i]))
-			e := padLeft(d.e[i], c.L)
-			svs += b2i(e != nil && c.sigmaOK(which, d, i, e))
+			svs += b2i(sv(i, padLeft(d.e[i], c.L)))
 		}
 		return h.ask(fmt.Sprintf("FIV %s %s %d %s %s %d %s %s", ctxf, vh.Hex(c.stmt[which]), c.rho, bt[0], bt[1], c.L, strings.Join(reps, ";"), svs))
 	default:
@@ -136,7 +151,7 @@ func (h *harness) modelVerdict(c *niCase, comp compiler.Name, cs ctxSpec, which 
 		svs := ""
 		for i := range d.a {
 			reps = append(reps, vh.Hex(d.a[i])+","+vh.Hex(d.e[i])+","+vh.Hex(d.z[i]))
-			svs += b2i(c.sigmaOK(which, d, i, d.e[i]))
+			svs += b2i(sv(i, d.e[i]))
 		}
 		return h.ask(fmt.Sprintf("RFV %s %s %s", ctxf, strings.Join(reps, ";"), svs))
 	}
